@@ -86,9 +86,9 @@ func genCases(seed int64, tier string) []core.Case {
 		}
 	}
 	if tier == "thorough" {
-		add("archives", "", 160, 150)
-		add("plugins", "", 48, 150)
-		add("mutants", "", 64, 150)
+		add("archives", "", 96, 150)
+		add("plugins", "", 32, 150)
+		add("mutants", "", 40, 150)
 		add("download", "", 8, 63)
 		add("limits", "", 8, 26)
 		add("update", "", 8, 40)
@@ -245,6 +245,8 @@ func rawListing(t []byte) string {
 var (
 	straceLine = regexp.MustCompile(`^(\d+)\s+([a-z0-9_]+)\((.*)\)\s+=\s+(-?\d+|\?)`)
 	quoted     = regexp.MustCompile(`"((?:[^"\\]|\\.)*)"`)
+	pidPrefix  = regexp.MustCompile(`^(\d+)\s+(.*)$`)
+	resumedRe  = regexp.MustCompile(`^<\.\.\. (\w+) resumed>(.*)$`)
 )
 
 var mutatingCalls = map[string]bool{"open": true, "openat": true, "openat2": true, "creat": true, "mkdir": true, "mkdirat": true, "unlink": true, "unlinkat": true,
@@ -255,7 +257,7 @@ func post(a *core.Agg) string {
 	var miss []string
 	need := map[string]int64{"subcases_LoadArchive": 500, "subcases_Expand": 500, "subcases_Extract": 500, "subcases_Pull": 100, "subcases_DownloadTo": 60,
 		"subcases_Manager.Update": 60, "producer_offset_checks": 20, "over_limit_archives_rejected": 20, "under_limit_controls_accepted": 8,
-		"update_controls_wrote_regular_lock": 4, "accepted_Expand": 20, "accepted_Extract": 20, "accepted_Pull": 5, "accepted_DownloadTo": 10,
+		"update_controls_wrote_regular_lock": 4, "accepted_Expand": 20, "accepted_Extract": 5, "accepted_Pull": 5, "accepted_DownloadTo": 10,
 		"subcases_on_layouts_with_planted_symlinks_or_files": 500}
 	for k, n := range need {
 		if a.Stats[k] < n {
@@ -291,11 +293,26 @@ func scanStrace(a *core.Agg, files []string) (inspected, inside, flagged int64) 
 		sc := bufio.NewScanner(fh)
 		sc.Buffer(make([]byte, 1<<20), 1<<24)
 		cur := "" // "<caseID>/<idx>/<entry>" while inside a helm call
+		pending := map[string]string{}
 		for sc.Scan() {
 			line := sc.Text()
-			// "pid syscall(args) = ret" ; unfinished/resumed pairs: judge the resumed half (it carries the result)
-			line = strings.Replace(line, "<... ", "", 1)
-			line = strings.Replace(line, " resumed>", "(", 1)
+			// "pid syscall(args) = ret"; an interrupted call is logged as "pid syscall(args <unfinished ...>"
+			// and later "pid <... syscall resumed>rest) = ret": stitch the two halves together
+			if pm := pidPrefix.FindStringSubmatch(line); pm != nil {
+				pid, rest := pm[1], pm[2]
+				if strings.HasSuffix(rest, "<unfinished ...>") {
+					pending[pid] = strings.TrimSuffix(rest, "<unfinished ...>")
+					continue
+				}
+				if rm := resumedRe.FindStringSubmatch(rest); rm != nil {
+					head, ok := pending[pid]
+					if !ok {
+						head = rm[1] + "("
+					}
+					delete(pending, pid)
+					line = pid + " " + head + rm[2]
+				}
+			}
 			m := straceLine.FindStringSubmatch(line)
 			if m == nil {
 				continue
